@@ -187,6 +187,9 @@ def handle_trace_string_proc_exit(parser, events):
 
 
 def handle_trace_string_threadname(parser, events):
+    if not events[0].func_qualifier & DgbFuncQual.DBG_FUNC_START.value:
+        # A continuation chunk of a name split over more than two events, the whole name is reported by its START..END.
+        return None
     name = b''.join([e.data for e in events if e.eventid == events[0].eventid]).replace(b'\x00', b'').decode()
     event = TraceStringThreadname(events, name)
     parser.tids_names[events[0].tid] = event.name
@@ -194,6 +197,9 @@ def handle_trace_string_threadname(parser, events):
 
 
 def handle_trace_string_threadname_prev(parser, events):
+    if not events[0].func_qualifier & DgbFuncQual.DBG_FUNC_START.value:
+        # A continuation chunk of a name split over more than two events, the whole name is reported by its START..END.
+        return None
     name = b''.join([e.data for e in events if e.eventid == events[0].eventid]).replace(b'\x00', b'').decode()
     event = TraceStringThreadnamePrev(events, name)
     parser.tids_names[events[0].tid] = event.name
